@@ -6,7 +6,7 @@ import subprocess
 
 from .common import VERIF, offline_env, log
 
-RUNNER_DIR = os.path.join(VERIF, 'replay_runner')
+RUNNER_DIR = os.environ.get('VERIF_RUNNER_DIR') or os.path.join(VERIF, 'replay_runner')
 
 
 def build_runner():
